@@ -29,8 +29,10 @@ RULE = ('all subsets of 1-8 reference species of a 14-species menu (5 descriptor
         'temperature reaches the species (direct, per-species kwargs, per-species overriding direct, other '
         "species' kwargs present, integer-typed) and the composition amounts (integers, rows scaled by dyadic "
         "per-species factors, entries shifted by dyadic fractions) up to the stated "
-        'deviation level, plus descending and repeated reference lists; also '
-        'deviation level; plus BFS over append/extend/pop/refit histories of References, de-duplicated '
+        'deviation level (plus two configurations in which every reference has its own slightly different '
+        'reference temperature), the offsets being compared in every case with the harness\'s own least-squares '
+        'solution built from each reference at its own T_ref, plus descending and repeated reference lists; '
+        'plus BFS over append/extend/pop/refit histories of References, de-duplicated '
         'on (reference list, list last fitted), with reference species that do / do not carry the References '
         'object themselves; plus all pairs (References A of 1-3 pool species, second object made new / by '
         'deepcopy / by to_dict-from_dict, edited by one append or pop and refitted).  A case is non-trivial '
@@ -38,8 +40,11 @@ RULE = ('all subsets of 1-8 reference species of a 14-species menu (5 descriptor
         'not square full rank, or a deviation is applied, or the history contains an append and a refit')
 ASSUMPTIONS = ['reference species and DFT-side models come from a fixed 14-species menu; experimental '
                'enthalpies from a fixed table or constructed from hidden per-descriptor offsets',
-               'with unequal reference temperatures only the unconditional clauses (linear, T-independent, '
-               'no S/Cp/Cv contribution, switch-off) are verdicts',
+               'with unequal reference temperatures the verdicts are the unconditional clauses (linear, T-independent, '
+               'no S/Cp/Cv contribution, switch-off) and the least-squares statement on the offsets as fitted: b_i = '
+               'HoRT_dft,i(T_ref,i) - HoRT_exp,i with every reference at its own T_ref, offsets measured at the mean '
+               'T_ref; re-evaluating a reference through StatMech at its own T_ref (factor mean T_ref / T_ref,i) is '
+               'no verdict then',
                'temperatures are scalars (HarmonicVib does not accept array T)',
                'non-integer amounts are dyadic fractions (0.125 ... 2.5 x the integer amount, or shifted by -0.5 ... '
                '+0.75): exactly representable, so the harness-side composition matrix is the one the references hold']
@@ -82,6 +87,10 @@ TEMPS = [200.0, 298.15, 1000.0]
 
 EXP_MODES = ['table', 'consistent']
 TREF_MODES = ['equal', 'all300', 'mixed']
+# fourth round: every reference with its own, slightly different temperature (by position in the list); used by the
+# extra configurations SPREAD_CFGS at every deviation level that has deviations at all (not a member of TREF_MODES:
+# the product exp x T_ref x descriptor keeps its size)
+SPREAD_T = [0.0, 0.5, -0.25, 0.85, 0.25, -0.4, 0.6, -0.1]
 DESC_MODES = ['elements', 'groups']
 ROUTES = ['direct', 'species', 'override', 'other', 'int']
 # composition amounts: the menu's integers; every row scaled by a per-species dyadic factor (per-site / per-formula-
@@ -91,6 +100,7 @@ COMP_MODES = ['int', 'site', 'real']
 SITE_F = [0.25, 0.5, 0.75, 1.5, 0.125, 2.5, 0.375]
 REAL_D = [0.25, -0.5, 0.375, 0.75, -0.125]
 DEFAULT = dict(exp='table', tref='equal', desc='elements', route='direct', comp='int')
+SPREAD_CFGS = [dict(DEFAULT, tref='spread'), dict(DEFAULT, exp='consistent', tref='spread', desc='groups', comp='real')]
 
 QUICK_SUB = [0, 1, 2, 3, 4, 5, 9, 10, 13]      # 9-species sub-menu used for 5-8 references in the quick tier
 HIST_POOL = {'quick': [0, 2, 1, 4, 5], 'thorough': [0, 2, 1, 4, 5, 9]}
@@ -98,7 +108,8 @@ HIST_DEPTH = {'quick': 4, 'thorough': 5}
 N_FIT_SHARDS = 24
 
 PLANNED_TAGS = ['rank:square-full', 'rank:over-fullcol', 'rank:deficient', 'rank:under-fullrow',
-                'exp:table', 'exp:consistent', 'tref:equal', 'tref:all300', 'tref:mixed',
+                'exp:table', 'exp:consistent', 'tref:equal', 'tref:all300', 'tref:mixed', 'tref:spread',
+                'lsq:equal-T', 'lsq:unequal-T', 'lsq:unique', 'lsq:not-unique', 'lsq:consistent', 'lsq:inconsistent',
                 'desc:elements', 'desc:groups', 'resid:zero', 'resid:nonzero',
                 'target:absent-descriptor', 'target:fractional', 'target:reference-itself',
                 'target:sum-of-references', 'comp:int', 'comp:site', 'comp:real', 'comp:below-one',
@@ -119,7 +130,8 @@ def bounds(tier):
                            'exp x T_ref x descriptor x route for <= 2 references; exp x T_ref x descriptor (direct) '
                            '+ T_ref x descriptor x other routes for 3; one deviation (routes included) for 4-5; '
                            'default + consistent for 6-8'),
-                exp_modes=EXP_MODES, tref_modes=TREF_MODES, descriptor_modes=DESC_MODES, routes=ROUTES,
+                exp_modes=EXP_MODES, tref_modes=TREF_MODES + ['spread'], spread_T_minus_298_15=SPREAD_T,
+                spread_configurations=SPREAD_CFGS, descriptor_modes=DESC_MODES, routes=ROUTES,
                 composition_modes=COMP_MODES, site_factors=SITE_F, real_shifts=REAL_D,
                 reference_order=('ascending menu order for every subset; descending order and one reference species '
                                  'listed twice for all pairs and for the triples of ' +
@@ -149,7 +161,7 @@ def _configs(level):
                 for d in DESC_MODES:
                     out.append(dict(DEFAULT, exp=EXP_MODES[n % 2], tref=TREF_MODES[n % 3], desc=d, route=r, comp=m))
                     n += 1
-        return out
+        return out + [dict(c) for c in SPREAD_CFGS]
     if level == 'full+r':
         out = list(base) + [dict(c, comp=m) for c in base if c['tref'] != 'mixed' for m in COMP_MODES[1:]]
         n = 0
@@ -158,7 +170,7 @@ def _configs(level):
                 for d in DESC_MODES:
                     out.append(dict(DEFAULT, exp=EXP_MODES[n % 2], tref=t, desc=d, route=r, comp=COMP_MODES[n % 3]))
                     n += 1
-        return out
+        return out + [dict(c) for c in SPREAD_CFGS]
     out = [dict(DEFAULT)]
     if level == 'zero':
         return out
@@ -171,6 +183,7 @@ def _configs(level):
         out += [dict(DEFAULT, route=r) for r in ROUTES[1:]]
         out += [dict(DEFAULT, comp='real'), dict(DEFAULT, comp='site'),
                 dict(DEFAULT, exp='consistent', comp='real', desc='groups')]
+        out += [dict(c) for c in SPREAD_CFGS]
     return out
 
 
@@ -275,6 +288,8 @@ def _tref_of(pos, tref):
         return T0
     if tref == 'all300':
         return 300.0
+    if tref == 'spread':
+        return T0 + SPREAD_T[pos % len(SPREAD_T)]
     return T0 if pos % 2 == 0 else 300.0
 
 
@@ -392,13 +407,16 @@ def check_refs(refs, ids, trefs, cfg, ctx, sig, case, full=True, fitted_ids=None
     ok = True
 
     # (1) (2) the fitted references themselves, evaluated through StatMech at their reference temperature
-    obs, expv, dft = [], [], []
+    obs, expv, dft, dft0 = [], [], [], []
     for i, t in zip(fitted, trefs):
         sp = _species(MENU[i][0], _comp(i, cmode), desc, refs, _model(i))
         obs.append(_get(sp, 'get_HoRT', t, route))
         dft.append(_get(sp, 'get_HoRT', t, route, use_references=False))
+        # the same species built without any References object, at ITS OWN reference temperature (for the
+        # least-squares statement below)
+        dft0.append(_get(_species(MENU[i][0], _comp(i, cmode), desc, None, _model(i)), 'get_HoRT', t, route))
         expv.append(_exp_HoRT(i, t, exp, cmode))
-        ctx.evals(2)
+        ctx.evals(3)
     ctx.tag('target:reference-itself')
     obs, expv, dft = np.array(obs), np.array(expv), np.array(dft)
     r = obs - expv
@@ -432,6 +450,7 @@ def check_refs(refs, ids, trefs, cfg, ctx, sig, case, full=True, fitted_ids=None
         ok &= ctx.close('hidden offsets recovered (consistent data, full column rank)',
                         [unit[e] for e in cols], [-HIDDEN[e] for e in cols], sig, case, rtol=1e-9,
                         scale=[abs(HIDDEN[e]) * 4 + 1.0 for e in cols])
+    ok &= _check_lsq(A, cols, rank, np.array(dft0), expv, unit, equal_T, exp, ctx, sig, case)
 
     n1, n2 = _comp(ids[0], cmode), _comp(ids[-1], cmode)
     both = {e: n1.get(e, 0) + n2.get(e, 0) for e in set(n1) | set(n2)}
@@ -512,6 +531,47 @@ def check_refs(refs, ids, trefs, cfg, ctx, sig, case, full=True, fitted_ids=None
                         rtol=0.0, atol=0.0)
         ctx.evals(38)
     ok &= _check_calls(refs, cfg, unit, T_fit, ctx, sig, case)
+    return bool(ok)
+
+
+def _check_lsq(A, cols, rank, dft0, expv, unit, equal_T, exp, ctx, sig, case):
+    """The fit as a least-squares problem, for equal AND unequal reference temperatures: the offsets (measured
+    through unit-composition species at the mean reference temperature, where the T_ref/T factor is one) are a
+    least-squares solution of A x = b with b_i = HoRT_dft,i(T_ref,i) - HoRT_exp,i, every reference taken at its OWN
+    reference temperature.  A, b and the solution are formed here (SVD with the rank of the case description);
+    nothing is read from the References object."""
+    b = dft0 - expv
+    x = np.array([-unit[e] for e in cols])                  # sign: H_exp = H_dft - offset.n
+    U, sv, Vt = np.linalg.svd(A, full_matrices=False)
+    Ur, sr, Vr = U[:, :rank], sv[:rank], Vt[:rank]
+    x_star = Vr.T @ ((Ur.T @ b) / sr)                       # minimum-norm least-squares solution
+    fit_star = Ur @ (Ur.T @ b)                              # projection of b on the column space: unique
+    bmag = np.abs(dft0) + np.abs(expv) + 1.0
+    amp = float(np.linalg.norm(bmag)) / float(sr[-1])
+    ctx.tag('lsq:equal-T' if equal_T else 'lsq:unequal-T')
+    unique = rank == A.shape[1]
+    ctx.tag('lsq:unique' if unique else 'lsq:not-unique')
+    consistent = (exp == 'consistent') or rank == A.shape[0]
+    ctx.tag('lsq:consistent' if consistent else 'lsq:inconsistent')
+    fitv = A @ x
+    ok = ctx.close('offsets applied to the references (A x) = projection of b on the composition matrix, b_i = '
+                   'HoRT_dft,i - HoRT_exp,i each at its own T_ref', fitv, fit_star, sig, case, rtol=1e-9,
+                   scale=np.abs(A) @ np.abs(x_star) + bmag)
+    ok &= ctx.close('least-squares residual orthogonal to the composition matrix (A^T (A x - b) = 0), every reference '
+                    'at its own T_ref', A.T @ (fitv - b), np.zeros(A.shape[1]), sig, case, rtol=1e-9,
+                    scale=np.abs(A).T @ (np.abs(A) @ np.abs(x_star) + bmag) + 1.0)
+    if unique:
+        ok &= ctx.close('fitted offsets = the least-squares solution of A x = b (references determine the offsets '
+                        'uniquely), every reference at its own T_ref', x, x_star, sig, case, rtol=1e-9,
+                        scale=np.abs(x_star) + amp)
+    if consistent:
+        ok &= ctx.close('fitted references reproduce their experimental HoRT, each at its own T_ref with the offsets '
+                        'as fitted (HoRT_dft,i - (A x)_i = HoRT_exp,i)', dft0 - fitv, expv, sig, case, rtol=1e-9,
+                        scale=bmag + np.abs(A) @ np.abs(x_star))
+    if unique and exp == 'consistent' and not equal_T:
+        ok &= ctx.close('hidden offsets recovered with unequal reference temperatures (consistent data, full column '
+                        'rank)', -x, [-HIDDEN[e] for e in cols], sig, case, rtol=1e-9,
+                        scale=[abs(HIDDEN[e]) * 4 + 1.0 for e in cols])
     return bool(ok)
 
 
@@ -974,6 +1034,8 @@ LEVEL_TEXT = ('Exhaustive enumeration of every subset of 1-8 reference species o
 LEVEL_NOTE = ('Menu of 14 species / 5 descriptors x 3 composition-amount modes; pairs and triples also in descending '
               'order and with one species listed twice; quick: all subsets of size 1-4 plus size 5-8 of a 9-species '
               'sub-menu, history depth 4; thorough: all 12910 subsets, depth 5. With unequal reference '
-              'temperatures only the unconditional clauses are verdicts. Scalar temperatures only.')
+              'temperatures (alternating 298.15 / 300 K, or every reference its own 298.15 + d K) the verdicts are the '
+              'unconditional clauses and the least-squares statement on the offsets as fitted (each reference at its own '
+              'T_ref). Scalar temperatures only.')
 TECHNIQUE = ('deviation-bounded exhaustive product enumeration + explicit-state BFS over operation histories on '
              'the implementation; algebraic oracles (normal equations, hidden offsets, linearity)')
